@@ -78,6 +78,7 @@ type c05Scenario struct {
 	ExecSeed uint64     `json:"exec_seed"`
 	MaxPerms int        `json:"max_perms"`
 	ExtraSeed uint64    `json:"extra_seed"`
+	altRequiredDefault bool // see runC05: the alternative reading used only to classify a difference
 }
 
 // attributes that do not refer to other services or resources and are valid on any service
@@ -637,6 +638,8 @@ func (sc *c05Scenario) resolve(file, name string, depth int) *c05Val {
 			e.Cond = d.Cond
 			if d.Required != nil {
 				e.Required = d.Required
+			} else if sc.altRequiredDefault && s.File != sc.Main {
+				e.Required = &yes
 			}
 			if d.Restart != nil {
 				e.Restart = d.Restart
@@ -934,6 +937,17 @@ func runC05(sc *c05Scenario) *c05Result {
 		want := sc.resolve(sc.Main, name, 0)
 		if d := c05Diff(want, projectOn(svc)); d != "" {
 			field := strings.SplitN(d, ":", 2)[0]
+			if field == "Deps" {
+				// one particular, separately recorded way of differing (see known_findings.json): a chain link declared
+				// in a file other than the main one states a dependency in long syntax without `required`; that file
+				// is put in canonical form (default filled in: required true) before its own extends are resolved
+				sc.altRequiredDefault = true
+				alt := sc.resolve(sc.Main, name, 0)
+				sc.altRequiredDefault = false
+				if c05Diff(alt, projectOn(svc)) == "" {
+					field = "Deps:required-default-filled-in-before-the-base-file-link-is-merged"
+				}
+			}
 			problem("differs-from-base-then-local:"+field, fmt.Sprintf("service %s: %s", name, d))
 		}
 	}
